@@ -497,6 +497,34 @@ func TestC14(t *testing.T) {
 		}
 		return c
 	}, propC14)
+	// a game with pondering: ponder searches ended by ponderhit (+ their timer) or by stop, followed by a
+	// search that finishes its iterations by itself (depth 1-2) and has to wait for its stop
+	hx.Sub(r, "pondering-game", r.N(40, 500)/div, func(t *rapid.T) lcCase {
+		c := lcCase{GoMaxProcs: rapid.SampledFrom([]int{1, 2, 4, 16}).Draw(t, "procs")}
+		for i := rapid.IntRange(1, 3).Draw(t, "ponders"); i > 0; i-- {
+			mt := rapid.IntRange(15, 40).Draw(t, "mt")
+			c.Ops = append(c.Ops, lcOp{Op: "start", Pos: rapid.IntRange(0, len(lcPositions)-1).Draw(t, "pos"), Limits: hx.LimSpec{Mode: "ponder", MoveTime: mt, StopAfterMs: -1, PonderHitAfterMs: -1}},
+				lcOp{Op: "sleep", SleepMs: rapid.IntRange(2, 10).Draw(t, "think")})
+			if rapid.IntRange(0, 3).Draw(t, "hit") != 0 {
+				c.Ops = append(c.Ops, lcOp{Op: "ponderhit"}, lcOp{Op: "sleep", SleepMs: mt + 15})
+			}
+			c.Ops = append(c.Ops, lcOp{Op: "stop"})
+			if rapid.IntRange(0, 2).Draw(t, "between") == 0 {
+				c.Ops = append(c.Ops, lcOp{Op: "start", Pos: rapid.IntRange(0, len(lcPositions)-1).Draw(t, "pos2"), Limits: hx.LimSpec{Mode: "depth", Depth: rapid.IntRange(1, 3).Draw(t, "d"), StopAfterMs: -1, PonderHitAfterMs: -1}}, lcOp{Op: "wait"})
+			}
+		}
+		last := hx.LimSpec{Mode: rapid.SampledFrom([]string{"infinite", "ponder"}).Draw(t, "lastMode"), Depth: rapid.IntRange(1, 2).Draw(t, "lastDepth"), StopAfterMs: -1, PonderHitAfterMs: -1}
+		if last.Mode == "ponder" {
+			last.MoveTime = 5000
+		}
+		c.Ops = append(c.Ops, lcOp{Op: "start", Pos: rapid.IntRange(0, len(lcPositions)-1).Draw(t, "lastPos"), Limits: last},
+			lcOp{Op: "sleep", SleepMs: rapid.IntRange(30, 60).Draw(t, "hold")})
+		if rapid.Bool().Draw(t, "ready") {
+			c.Ops = append(c.Ops, lcOp{Op: "isready"})
+		}
+		c.Ops = append(c.Ops, lcOp{Op: "stop"})
+		return c
+	}, propC14)
 	hx.Sub(r, "start-while-running", r.N(40, 500)/div, func(t *rapid.T) lcCase {
 		c := lcCase{GoMaxProcs: rapid.SampledFrom([]int{1, 2, 4, 16}).Draw(t, "procs")}
 		inf := hx.LimSpec{Mode: "infinite", StopAfterMs: -1, PonderHitAfterMs: -1}
